@@ -412,6 +412,12 @@ def decode(out, case):
 GRAMMAR = re.compile(r'^bytes=(\d*)-(\d*)(?:,.*)?$', re.S)
 
 
+def _num(d):
+    """value of a digit string of any length (saturating: all that matters is the comparison with a file length)"""
+    t = d.lstrip('0') or '0'
+    return int(t) if len(t) < 30 else 10 ** 30
+
+
 def rfc_first(header, L):
     """independent statement of RFC 7233 for the FIRST range spec of a grammar-conforming header:
     returns 'n/a' (not from the grammar), None (unsatisfiable / invalid) or (first, last) inclusive"""
@@ -419,17 +425,17 @@ def rfc_first(header, L):
     if not m or not header.isascii():
         return 'n/a'
     a, b = m.group(1), m.group(2)
-    if (not a and not b) or len(a) > 4300 or len(b) > 4300:
+    if not a and not b:
         return 'n/a'
     if not a:
-        n = int(b)
+        n = _num(b)
         if n == 0 or L == 0:
             return None
         return (max(0, L - n), L - 1)
-    first = int(a)
+    first = _num(a)
     if not b:
         return (first, L - 1) if first < L else None
-    last = int(b)
+    last = _num(b)
     if last < first:
         return None            # syntactically invalid spec: the code answers 416 (the RFC says: ignore the header)
     return (first, min(last, L - 1)) if first < L else None
@@ -594,7 +600,13 @@ def shrink(case):
             yield dict(case, frac=0)
 
 
-PREDICATES = {}
+def _over_digit_limit(case, what, m):
+    h = case.get('header') if case['kind'] == 'range' else case.get('range')
+    g = GRAMMAR.match(h or '')
+    return bool(g) and max(len(g.group(1)), len(g.group(2))) > m.get('digits', 4300)
+
+
+PREDICATES = {'range_numeral_over_int_digit_limit': _over_digit_limit}
 
 MANIFEST = dict(
     text=('Proof: C17_range_sound (for ANY int parser: a returned range satisfies 0 <= s < e <= len), C17_range_rfc (with '
